@@ -322,9 +322,12 @@ def kind_of(r):
 
 
 def run_shape(c):
-    R, Z = domain(c)
-    f = analytic("lsn")
-    e = stub(c["method"], R, Z, f(R[:, None], Z[None, :]), *fpol_pair("quad"))
+    if c.get("eq") == "tokamak":     # the real TokamakEquilibrium: its fpol / fpolprime / pressure wrappers take part in the dispatch
+        e, R, Z, _, _ = build(dict(c, family="lsn", fpol="quad"))
+    else:
+        R, Z = domain(c)
+        f = analytic("lsn")
+        e = stub(c["method"], R, Z, f(R[:, None], Z[None, :]), *fpol_pair("quad"))
     R0, Z0 = 1.43, 0.11
 
     def arg(kind, which):
